@@ -234,6 +234,8 @@ func createFilesInTar(info *nfpm.Info, tw *tar.Writer) ([]MtreeEntry, int64, err
 				Typeflag: tar.TypeReg,
 				Size:     content.Size(),
 				ModTime:  content.ModTime(),
+				Uname:    content.FileInfo.Owner,
+				Gname:    content.FileInfo.Group,
 			}
 
 			if content.FileInfo != nil && content.Mode() != 0 {
